@@ -4,7 +4,7 @@ import json, glob, os
 rows = []
 for d in sorted(glob.glob(os.path.join(os.path.dirname(os.path.dirname(os.path.abspath(__file__))), 'seeded', '*'))):
     m = json.load(open(os.path.join(d, 'meta.json')))
-    obs = '; '.join(x.split('] ')[1].split(' (')[0] for x in m.get('caught_by_obligations', []) if '] ' in x) or '-'
+    obs = '; '.join((x.split('] ')[1].split(' (')[0] if '] ' in x else x) for x in m.get('caught_by_obligations', [])) or '-'
     rows.append(f"| {os.path.basename(d)} | {m['what'][:150].replace('|', '/')} | {'caught (exit 1)' if m['detected'] else 'MISSED'} | {obs[:160]} | {m.get('note','')[:220].replace('|','/')} |")
 print('| id | change | result | failing obligations | note |\n|---|---|---|---|---|')
 print('\n'.join(rows))
